@@ -1211,60 +1211,9 @@ func c01EmptyQueryIsAQuery(c *Ctx) {
 // response has been read the client loop looks at what is left in its reader and retires the connection (the path of
 // `Connection: close`) instead of keeping the bytes for the next request.
 func c02LeftoverUpstreamBytesRetireConnection(c *Ctx) {
-	const rule = "C02.R18"
-	c.Rule(rule, "bytes an HTTP/1 upstream sent beyond the response retire the connection instead of answering the next request", 1)
-	pkg := "pkg/stream/http"
-	fn := c.M(pkg, "clientStreamConnection", "serve")
-	if fn == nil {
-		c.Unresolved(rule, "clientStreamConnection.serve")
-		return
-	}
-	reads := callsIn(fn, false, func(cc *ssa.CallCommon) bool { return methodName(cc) == "Read" && len(cc.Args) == 2 })
-	goaway := callsIn(fn, false, calledAs("OnGoAway"))
-	if len(reads) == 0 || len(goaway) == 0 {
-		c.Fail(rule, funcKey(fn)+":leftover-retires-connection", fn.Pos(), "response.Read / OnGoAway not found in serve")
-		return
-	}
-	ok := false
-	for _, cs := range callsIn(fn, false, calledAs("Buffered")) {
-		// the result decides a branch from which OnGoAway is reachable, after the response was read
-		var conds []*ssa.If
-		seen := map[ssa.Value]bool{}
-		var uses func(v ssa.Value, d int)
-		uses = func(v ssa.Value, d int) {
-			if d > 6 || seen[v] {
-				return
-			}
-			seen[v] = true
-			for _, r := range refs(v) {
-				switch x := r.(type) {
-				case *ssa.If:
-					conds = append(conds, x)
-				case *ssa.BinOp:
-					uses(x, d+1)
-				case *ssa.Phi:
-					uses(x, d+1)
-				case *ssa.UnOp:
-					uses(x, d+1)
-				}
-			}
-		}
-		uses(cs.Instr.(ssa.Value), 0)
-		for _, ifi := range conds {
-			for _, g := range goaway {
-				if existsPath(fn, ifi, func(in ssa.Instruction) bool { return in == g.Instr }, nil) != nil {
-					for _, r := range reads {
-						if instrDominates(r.Instr, cs.Instr) {
-							ok = true
-						}
-					}
-				}
-			}
-		}
-	}
-	c.Check(rule, funcKey(fn)+":leftover-retires-connection", fn.Pos(), ok,
-		"after a response is read, bytes left in the reader lead to OnGoAway",
-		"after reading a response the client loop does not look at what is left in its reader: a second response the upstream sent unasked stays buffered and is delivered as the response of the next request on the pooled connection, and every later exchange on it is shifted by one")
+	// (the first version looked for a Buffered() call in serve whose result can reach OnGoAway; it alarmed on a helper
+	// that does the same test and could not tell a content test from a count test - see round15.go)
+	http1SurplusDecidedOnCounts(c, "C02.R18", "leftover-retires-connection")
 }
 
 // ---------------------------------------------------------------------------------------------------------------------
